@@ -13,7 +13,7 @@ Record page := mkPage { p_items : list item; p_result : result }.
 (* what the adapter puts on the wire *)
 Record request := mkReq { q_params : nat (* base, scope, filter, attrs, options, timeout: one opaque token *); q_ctrls : list ctl }.
 
-Inductive sstate := Active | Done | SError.
+Inductive sstate := Active | Done | SError | Closed.
 Record stream := mkS {
   st : sstate;
   chan : option (list item * result);     (* current page still to be read: items, then its SearchResultDone *)
@@ -38,8 +38,9 @@ Definition find_paged (cs : list ctl) : option bytes :=
 Definition strip_first_paged (cs : list ctl) : list ctl :=
   (fix go l := match l with [] => [] | c :: r => if is_paged c then r else c :: go r end) cs.
 
-(* PagedResults::next: 'ent: loop { match stream.next() ... } *)
-Fixpoint next (fuel : nat) (s : stream) : stream * nres :=
+(* PagedResults::next: 'ent: loop { match stream.next() ... } ; [fx]: with the repair of F21 the result of the page just read is
+   cleared when the follow-up page's stream is spliced in (stream.res = None), without it it stays in place *)
+Fixpoint next (fx : bool) (fuel : nat) (s : stream) : stream * nres :=
   match fuel with O => (s, NErr) | S f =>
   match st s with
   | Active =>
@@ -52,7 +53,7 @@ Fixpoint next (fuel : nat) (s : stream) : stream * nres :=
       | Some ((_ :: _) as ck) =>
           match server s with
           | p :: rest =>
-              next f (mkS Active (Some (p_items p, p_result p)) (Some r) (saved_params s) (saved_ctrls s) (page_size s) rest
+              next fx f (mkS Active (Some (p_items p, p_result p)) (if fx then None else Some r) (saved_params s) (saved_ctrls s) (page_size s) rest
                           (wire s ++ [mkReq (saved_params s) (saved_ctrls s ++ [CPaged (page_size s) ck])]))
           | [] => (mkS SError None (Some r) (saved_params s) (saved_ctrls s) (page_size s) [] (wire s), NErr) end
       | Some [] => (mkS Done None (Some (mkRes (rc r) (strip_first_paged (ctrls r)))) (saved_params s) (saved_ctrls s) (page_size s) (server s) (wire s), NNone)
@@ -61,11 +62,28 @@ Fixpoint next (fuel : nat) (s : stream) : stream * nres :=
     end
   | _ => (s, NNone) end end.
 
-Fixpoint drain (fuel : nat) (s : stream) : list item * stream :=
+Fixpoint drain (fx : bool) (fuel : nat) (s : stream) : list item * stream :=
   match fuel with O => ([], s) | S f =>
-    match next (S (length (server s))) s with
-    | (s', NSome it) => let (l, s'') := drain f s' in (it :: l, s'')
+    match next fx (S (length (server s))) s with
+    | (s', NSome it) => let (l, s'') := drain fx f s' in (it :: l, s'')
     | (s', _) => ([], s') end end.
+(* the caller reads at most [k] items and stops *)
+Fixpoint take_items (fx : bool) (k : nat) (s : stream) : list item * stream :=
+  match k with O => ([], s) | S k' =>
+    match next fx (S (length (server s))) s with
+    | (s', NSome it) => let (l, s'') := take_items fx k' s' in (it :: l, s'')
+    | (s', _) => ([], s') end end.
+(* SearchStream::finish / finish_inner: code 80 when already closed; otherwise the stored result, or the synthetic cancellation (88);
+   unless the stream is Done the id of the request in flight - the handle's last id: the newest request on the wire, ids being issued
+   in sequence on a connection used by nothing else - is scrubbed *)
+Definition cancelled : result := mkRes 88 [].
+Definition finish (s : stream) : stream * result * option nat :=
+  match st s with
+  | Closed => (s, mkRes 80 [], None)
+  | _ => (mkS Closed None None (saved_params s) (saved_ctrls s) (page_size s) (server s) (wire s),
+          match res s with Some r => r | None => cancelled end,
+          match st s with Done => None | _ => Some (length (wire s)) end)
+  end.
 
 (* a paging server: every page but the last returns a non-empty cookie; the last returns an empty one (or no control at all) *)
 Definition cookie_of (r : result) : bytes := match find_paged (ctrls r) with Some ck => ck | None => [] end.
@@ -80,28 +98,28 @@ Fixpoint last_result (cur : result) (rest : list page) : result :=
 Definition final_of (r : result) : result :=
   match find_paged (ctrls r) with Some _ => mkRes (rc r) (strip_first_paged (ctrls r)) | None => r end.
 
-Lemma next_item f it tl r rs pa uc sz srv w :
-  next (S f) (mkS Active (Some (it :: tl, r)) rs pa uc sz srv w) = (mkS Active (Some (tl, r)) rs pa uc sz srv w, NSome it).
+Lemma next_item fx f it tl r rs pa uc sz srv w :
+  next fx (S f) (mkS Active (Some (it :: tl, r)) rs pa uc sz srv w) = (mkS Active (Some (tl, r)) rs pa uc sz srv w, NSome it).
 Proof. reflexivity. Qed.
 
-Lemma drain_items its : forall fuel r rs pa uc sz srv w,
-  drain (length its + fuel) (mkS Active (Some (its, r)) rs pa uc sz srv w) =
-  let (l, s') := drain fuel (mkS Active (Some ([], r)) rs pa uc sz srv w) in (its ++ l, s').
+Lemma drain_items fx its : forall fuel r rs pa uc sz srv w,
+  drain fx (length its + fuel) (mkS Active (Some (its, r)) rs pa uc sz srv w) =
+  let (l, s') := drain fx fuel (mkS Active (Some ([], r)) rs pa uc sz srv w) in (its ++ l, s').
 Proof. induction its as [|it its IH]; intros fuel r rs pa uc sz srv w.
-  - cbn [length Nat.add app]. now destruct (drain fuel _).
+  - cbn [length Nat.add app]. now destruct (drain fx fuel _).
   - cbn [length Nat.add drain server]. rewrite next_item. rewrite IH.
-    destruct (drain fuel _). reflexivity. Qed.
+    destruct (drain fx fuel _). reflexivity. Qed.
 
 (* crossing a page boundary happens inside one call of next(): the follow-up request goes out and reading continues *)
-Lemma drain_cross g r c0 ck p rest rs pa uc sz w : find_paged (ctrls r) = Some (c0 :: ck) ->
-  drain (S g) (mkS Active (Some ([], r)) rs pa uc sz (p :: rest) w) =
-  drain (S g) (mkS Active (Some (p_items p, p_result p)) (Some r) pa uc sz rest (w ++ [mkReq pa (uc ++ [CPaged sz (c0 :: ck)])])).
+Lemma drain_cross fx g r c0 ck p rest rs pa uc sz w : find_paged (ctrls r) = Some (c0 :: ck) ->
+  drain fx (S g) (mkS Active (Some ([], r)) rs pa uc sz (p :: rest) w) =
+  drain fx (S g) (mkS Active (Some (p_items p, p_result p)) (if fx then None else Some r) pa uc sz rest (w ++ [mkReq pa (uc ++ [CPaged sz (c0 :: ck)])])).
 Proof. intros Ef. cbn [drain server length]. cbn [next st chan]. rewrite Ef. reflexivity. Qed.
 
 (* the whole run, from any point inside any page *)
-Theorem c16_run rest : forall its r rs pa uc sz w fuel, wf_script r rest ->
+Theorem c16_run fx rest : forall its r rs pa uc sz w fuel, wf_script r rest ->
   (length its + length (flat_map p_items rest) + length rest < fuel)%nat ->
-  exists s', drain fuel (mkS Active (Some (its, r)) rs pa uc sz rest w) = (its ++ flat_map p_items rest, s') /\
+  exists s', drain fx fuel (mkS Active (Some (its, r)) rs pa uc sz rest w) = (its ++ flat_map p_items rest, s') /\
     st s' = Done /\ res s' = Some (final_of (last_result r rest)) /\
     wire s' = w ++ followups pa uc sz r rest.
 Proof.
@@ -119,16 +137,16 @@ Proof.
     replace fuel with (length its + (fuel - length its))%nat by lia. rewrite drain_items.
     destruct (fuel - length its)%nat as [|g] eqn:Eg; [lia|].
     unfold cookie_of in Hck. destruct (find_paged (ctrls r)) as [ck|] eqn:Ef; [|congruence]. destruct ck as [|c0 ck]; [congruence|].
-    rewrite (drain_cross g r c0 ck p rest rs pa uc sz w Ef).
-    destruct (IH (p_items p) (p_result p) (Some r) pa uc sz (w ++ [mkReq pa (uc ++ [CPaged sz (c0 :: ck)])]) (S g) Hwf ltac:(lia)) as (s' & Hd & Hst & Hres & Hw).
+    rewrite (drain_cross fx g r c0 ck p rest rs pa uc sz w Ef).
+    destruct (IH (p_items p) (p_result p) (if fx then None else Some r) pa uc sz (w ++ [mkReq pa (uc ++ [CPaged sz (c0 :: ck)])]) (S g) Hwf ltac:(lia)) as (s' & Hd & Hst & Hres & Hw).
     rewrite Hd. exists s'. split; [cbn [flat_map]; now rewrite app_assoc|]. repeat split; try assumption.
     rewrite Hw. cbn [followups]. unfold cookie_of. rewrite Ef. now rewrite <- app_assoc.
 Qed.
 
 (* C16 in the property's words *)
-Theorem c16 params user_ctrls size p rest s0 :
+Theorem c16 fx params user_ctrls size p rest s0 :
   start params user_ctrls size (p :: rest) = Some s0 -> wf_script (p_result p) rest ->
-  exists s', drain (S (length (flat_map p_items (p :: rest)) + length (p :: rest))) s0 = (flat_map p_items (p :: rest), s') /\
+  exists s', drain fx (S (length (flat_map p_items (p :: rest)) + length (p :: rest))) s0 = (flat_map p_items (p :: rest), s') /\
     st s' = Done /\
     (* the final result is the last page's, without the paging control *)
     res s' = Some (final_of (last_result (p_result p) rest)) /\
@@ -137,7 +155,7 @@ Theorem c16 params user_ctrls size p rest s0 :
     wire s' = mkReq params (user_ctrls ++ [CPaged size []]) :: followups params user_ctrls size (p_result p) rest.
 Proof.
   unfold start. destruct (existsb is_paged user_ctrls); [discriminate|]. intros [= <-] Hwf.
-  destruct (c16_run rest (p_items p) (p_result p) None params user_ctrls size [mkReq params (user_ctrls ++ [CPaged size []])]
+  destruct (c16_run fx rest (p_items p) (p_result p) None params user_ctrls size [mkReq params (user_ctrls ++ [CPaged size []])]
               (S (length (flat_map p_items (p :: rest)) + length (p :: rest))) Hwf) as (s' & Hd & Hst & Hres & Hw).
   { cbn [flat_map length]. rewrite app_length. lia. }
   exists s'. repeat split; assumption.
@@ -159,4 +177,40 @@ Proof.
   - destruct (existsb is_paged (ctrls r)) eqn:E; [|reflexivity]. apply existsb_exists in E as (x & Hx & Px).
     pose proof (find_none _ _ Ef x Hx). congruence.
 Qed.
+
+(* ---- finishing before the end (C10 for the adapted stream, C13 for its ids) ---- *)
+(* with the repair of F21: while the adapted stream is Active it holds no result *)
+Lemma next_active_no_res fuel : forall s s' r, next true fuel s = (s', r) -> (st s = Active -> res s = None) -> st s' = Active -> res s' = None.
+Proof.
+  induction fuel as [|f IH]; intros s s' r H Hinv Ha; cbn [next] in H; [injection H as <- _; auto|].
+  destruct (st s) eqn:Es; try (injection H as <- _; congruence).
+  destruct (chan s) as [[[|it tl] rr]|] eqn:Ec.
+  - destruct (find_paged (ctrls rr)) as [[|c0 ck]|] eqn:Ef; try (injection H as <- _; cbn in Ha; discriminate).
+    destruct (server s) as [|p rest]; [injection H as <- _; cbn in Ha; discriminate|].
+    eapply IH; [exact H| |exact Ha]. reflexivity.
+  - injection H as <- _. cbn. auto.
+  - injection H as <- _. cbn in Ha. discriminate.
+Qed.
+Lemma take_items_active_no_res k : forall s l s', take_items true k s = (l, s') -> (st s = Active -> res s = None) -> st s' = Active -> res s' = None.
+Proof.
+  induction k as [|k IH]; intros s l s' H Hinv Ha; cbn [take_items] in H; [injection H as _ <-; auto|].
+  destruct (next true (S (length (server s))) s) as [s1 r] eqn:En. pose proof (next_active_no_res _ _ _ _ En Hinv) as H1.
+  destruct r; [destruct (take_items true k s1) as [l' s2] eqn:Et; injection H as _ <-; eapply IH; eauto| |]; injection H as _ <-; auto.
+Qed.
+(* C10 on the adapted stream: however many items the caller has read, on whichever page, a finish() before the end returns the
+   synthetic cancellation (88) and scrubs the id of the newest request - never a page's own result *)
+Theorem c10_paged_early_finish params uc size srv s0 k l s' : start params uc size srv = Some s0 -> take_items true k s0 = (l, s') -> st s' = Active ->
+  let '(s'', r, scrub) := finish s' in r = cancelled /\ scrub = Some (length (wire s')) /\ st s'' = Closed.
+Proof.
+  intros Hs Ht Ha. assert (Hr : res s' = None).
+  { eapply take_items_active_no_res; [exact Ht| |exact Ha]. unfold start in Hs. destruct (existsb is_paged uc); [discriminate|]. destruct srv; [discriminate|]. injection Hs as <-. reflexivity. }
+  unfold finish. rewrite Ha, Hr. repeat split. Qed.
+(* the defect on the code as it was: one full page read, the second page begun, finish() returns the first page's result *)
+Lemma c10_refuted_F21 : let pg := mkPage [Entry 1] (mkRes 0 [CPaged 0 [x01]]) in let pg2 := mkPage [Entry 2; Entry 3] (mkRes 0 [CPaged 0 []]) in
+  match start 7 [] 1 [pg; pg2] with Some s0 => let '(_, s') := take_items false 2 s0 in snd (fst (finish s')) = mkRes 0 [CPaged 0 [x01]] | None => False end.
+Proof. vm_compute. reflexivity. Qed.
+Lemma c10_repaired_F21 : let pg := mkPage [Entry 1] (mkRes 0 [CPaged 0 [x01]]) in let pg2 := mkPage [Entry 2; Entry 3] (mkRes 0 [CPaged 0 []]) in
+  match start 7 [] 1 [pg; pg2] with Some s0 => let '(_, s') := take_items true 2 s0 in snd (fst (finish s')) = cancelled /\ st s' = Active | None => False end.
+Proof. vm_compute. split; reflexivity. Qed.
 Print Assumptions c16.
+Print Assumptions c10_paged_early_finish.
